@@ -175,3 +175,42 @@ def empty_word_outcome(F):
     if leaks:
         return False, f'the empty word can take a path that yields another node ({leaks[:2]})', f
     return True, '', f
+
+
+def static_words_outside_table(F):
+    """[(where, loc)] for every object of the reserved-word class (the class of the elements of known_words) that lives outside
+    that table: another namespace-scope or static variable, a data member, a local, a temporary.  Interning finds a reserved
+    spelling by searching the table, so a word object anywhere else is a second node for its spelling."""
+    from facts import walk
+    kw = [g for g in F.globals if g['name'] == 'known_words']
+    if len(kw) != 1:
+        raise AnalysisBroken('known_words not found')
+    import re
+    m = re.match(r'(?:const )?(.*?)\s*\[\d*\]$', kw[0]['t'].strip())
+    if not m:
+        raise AnalysisBroken(f'known_words is not an array: {kw[0]["t"]}')
+    wcls = m.group(1).replace('const ', '').strip()
+    norm = lambda t: (t or '').replace('const ', '').replace('(anonymous namespace)', '(anon)').strip()
+    W = norm(wcls)
+    out = []
+    for g in F.globals:
+        if g is kw[0]:
+            continue
+        base = norm(g['t']).split('[')[0].rstrip('&* ').strip()
+        if base == W and not norm(g['t']).rstrip().endswith(('&', '*')):
+            out.append((f'variable {g["q"]}', g['loc']))
+    for n, r in F.rec.items():
+        for fl in r['fields']:
+            if norm(fl['t']).split('[')[0].strip() == W:
+                out.append((f'data member {n}::{fl["name"]}', f'{r["loc"].split(":")[0]}:{fl.get("ln", 0)}'))
+    for f in F.fn.values():
+        if not (f.get('loc') or '').startswith(('src/', 'include/ipr')) or norm(f.get('parent')) == W:
+            continue
+        for x in walk(f.get('body')):
+            if x.get('k') == 'decl':
+                for v in x.get('vars', []):
+                    if norm(v.get('t')).split('[')[0].strip() == W:
+                        out.append((f'local {v["name"]} of {f["id"][:80]}', f['loc']))
+            elif x.get('k') == 'ctor' and norm(x.get('cls')) == W and not x.get('copy'):
+                out.append((f'temporary in {f["id"][:80]} (line {x.get("ln")})', f['loc']))
+    return W, kw[0], sorted(set(out))
